@@ -118,27 +118,55 @@ static void check_canonical(const std::string& in, const std::string& out, bool 
 	}
 }
 
-// slot: 0 = texture set slot 0, 1 = effect shader source texture
+// slot: 0 = texture set slot 0; 1..5 = effect shader source / normal / greyscale / env map / env mask texture;
+//       6 = NiSourceTexture behind the shape's NiTexturingProperty (base texture; OB/FO3); 7 = texture set slot 1
+// every other path of the same owner holds a distinct path in canonical form and must not change
 extern "C" void h_paths(int ver, int terrain, int mode, int n1, int n2, int slot) {
 	NifFile nif;
-	fm_build(nif, ver, 0);
+	fm_build(nif, ver, slot == 6 ? (int) FM_SRCTEX : 0);
 	NiHeader& hdr = nif.GetHeader();
 	NiShape* shape = nif.GetShapes()[0];
 	NiShader* shader = nif.GetShader(shape);
 	sym_assert(shader != nullptr, "C19-setup: no shader");
 	std::string* target = nullptr;
-	if (slot == 1) {
+	std::vector<std::string*> others;
+	bool isOBv = hdr.GetVersion().IsOB();
+	if (slot >= 1 && slot <= 5) {
 		auto es = std::make_unique<BSEffectShaderProperty>();
 		uint32_t id = hdr.ReplaceBlock(nif.GetBlockID(shader), std::move(es));
 		auto eff = hdr.GetBlock<BSEffectShaderProperty>(id);
-		target = &eff->sourceTexture.get();
+		std::string* all[5] = {&eff->sourceTexture.get(), &eff->normalTexture.get(), &eff->greyscaleTexture.get(), &eff->envMapTexture.get(), &eff->envMaskTexture.get()};
+		for (int i = 0; i < 5; i++)
+			if (i == slot - 1)
+				target = all[i];
+			else
+				others.push_back(all[i]);
+	}
+	else if (slot == 6) {
+		auto tp = nif.GetTexturingProperty(shape);
+		sym_assert(tp != nullptr, "C19-setup: no texturing property");
+		auto src = hdr.GetBlock(tp->baseTex.sourceRef);
+		sym_assert(src != nullptr, "C19-setup: no source texture");
+		target = &src->fileName.get();
 	}
 	else {
 		auto ts = hdr.GetBlock<BSShaderTextureSet>(shader->TextureSetRef());
 		sym_assert(ts != nullptr && !ts->textures.empty(), "C19-setup: no texture set");
-		if (ts->textures.empty())
-			ts->textures.resize(1);
-		target = &ts->textures[0].get();
+		if (ts->textures.size() < 3)
+			ts->textures.resize(3);
+		int k = slot == 7 ? 1 : 0;
+		for (int i = 0; i < 3; i++)
+			if (i == k)
+				target = &ts->textures[i].get();
+			else
+				others.push_back(&ts->textures[i].get());
+	}
+	// the other paths: distinct, already canonical
+	std::vector<std::string> otherVals;
+	for (size_t i = 0; i < others.size(); i++) {
+		std::string v = std::string(terrain ? "Data\\" : "") + (isOBv ? "" : "textures\\") + "k" + std::string(1, (char) ('a' + i)) + ".dds";
+		*others[i] = v;
+		otherVals.push_back(v);
 	}
 	nif.isTerrain = terrain != 0;
 	std::string in = make_path(mode, n1, n2);
@@ -146,6 +174,8 @@ extern "C" void h_paths(int ver, int terrain, int mode, int n1, int n2, int slot
 	sym_reach("loaded");
 	nif.TrimTexturePaths();
 	std::string out1 = *target;
+	for (size_t i = 0; i < others.size(); i++)
+		sym_assert(*others[i] == otherVals[i], "C19-other-slot: cleaning changed another path that was already in canonical form");
 	bool isOB = hdr.GetVersion().IsOB();
 	check_canonical(in, out1, isOB, terrain != 0);
 	if (is_canonical(in, isOB, terrain != 0))
